@@ -44,10 +44,22 @@ pub open spec fn only_returned_opened(f0: Map<int, Obj>, f1: Map<int, Obj>, a: O
 //@FN _get_dupped_stderr_fd
 //@FN print_stdout
 //@FN print_stderr
-// is_redirected(cmd, fd): cmd.redirects_to.iter().any(|x| x.0 == fd) through a shim with the std contract of Iterator::any
-pub open spec fn redirected(cmd: Command, fd: Seq<char>) -> bool { exists|i: int| 0 <= i < cmd.redirects_to@.len() && (#[trigger] cmd.redirects_to@[i]).0@ == fd }
-#[verifier::external_body]
-pub fn is_redirected(cmd: &Command, fd: &str) -> (r: bool) ensures r == redirected(*cmd, fd@) { unimplemented!() }
+// ---- where what a CAPTURED builtin writes to descriptor 1 / 2 ends up (C04 for builtins, C11): the redirections of the command applied from left to right to
+// the pair (captured stdout, captured stderr); N>&M copies M as it stands at that point, anything else sends the descriptor away from the capture ----
+//@TYPE Sink
+pub open spec fn sink_step(st: (Sink, Sink), item: Redirection) -> (Sink, Sink) {
+    let to = if item.2@ == "&1"@ { st.0 } else if item.2@ == "&2"@ { st.1 } else { Sink::Elsewhere };
+    if item.0@ == "1"@ { (to, st.1) } else if item.0@ == "2"@ { (st.0, to) } else { st }
+}
+pub open spec fn sinks(redirs: Seq<Redirection>, n: int) -> (Sink, Sink)
+    decreases n
+{
+    if n <= 0 { (Sink::Out, Sink::Err) } else { sink_step(sinks(redirs, n - 1), redirs[n - 1]) }
+}
+pub open spec fn sink_of(cmd: Command, fd: Seq<char>) -> Sink {
+    if fd == "1"@ { sinks(cmd.redirects_to@, cmd.redirects_to@.len() as int).0 } else { sinks(cmd.redirects_to@, cmd.redirects_to@.len() as int).1 }
+}
+//@FN captured_sink
 //@FN print_stderr_with_capture
 //@FN print_stdout_with_capture
 ''' + common.TAIL
@@ -113,17 +125,29 @@ print_stderr = Fn(U, 'print_stderr', pre_rewrites=RW, add_params='Tracked(k): Tr
     requires=[('C05.pre.bfd.len5', '!old(k).fds.contains_key(-1) && cmd.redirects_to@.len() < 0x7fff_ffff')],
     ensures=[('C08+C04.bfd.printing_errors_leaves_the_shell_table_unchanged', 'cl.commands@.len() <= 1 ==> final(k).fds =~= old(k).fds')])
 
-# C04 for builtins under capture: output that the command line redirects is written there, not captured; what is captured is exactly the text
+# C04 for builtins under capture: what the builtin writes goes where the redirections of the command, applied left to right, send that descriptor:
+# into the captured stdout, into the captured stderr, or -- when the command line sends it elsewhere -- to that place, uncaptured
+captured_sink = Fn(U, 'captured_sink', ret='r', pre_rewrites=RW,
+    ensures=[('C04+C11.bfd.sink.redirections_are_applied_left_to_right_to_the_capture_pair', 'r == sink_of(*cmd, fd@)')],
+    loops={0: Loop(invariant=[('C04+C11.inv.bfd.sink', '(out, err) == sinks(cmd.redirects_to@, __I as int)')])},
+    hints={})
 cap_out = Fn(U, 'print_stdout_with_capture', pre_rewrites=RW, add_params='Tracked(k): Tracked<&mut Kernel>', ghost_args=dict(GA, print_stdout='Tracked(k)'),
     requires=[('C05.pre.bfd.len6', '!old(k).fds.contains_key(-1) && cmd.redirects_to@.len() < 0x7fff_ffff')],
-    ensures=[('C04+C11.bfd.redirected_output_of_a_builtin_is_not_captured',
-              'if capture && !redirected(*cmd, "1"@) { final(cr).stdout@ == info@ && final(k).fds == old(k).fds } else { final(cr).stdout@ == old(cr).stdout@ }')])
+    ensures=[('C04+C11.bfd.output_of_a_captured_builtin_goes_where_its_redirections_send_it',
+              'if !capture { final(cr).stdout@ == old(cr).stdout@ && final(cr).stderr@ == old(cr).stderr@ } else { match sink_of(*cmd, "1"@) { '
+              'Sink::Out => final(cr).stdout@ == info@ && final(cr).stderr@ == old(cr).stderr@ && final(k).fds == old(k).fds, '
+              'Sink::Err => final(cr).stderr@ == info@ && final(cr).stdout@ == old(cr).stdout@ && final(k).fds == old(k).fds, '
+              'Sink::Elsewhere => final(cr).stdout@ == old(cr).stdout@ && final(cr).stderr@ == old(cr).stderr@ } }')])
 cap_err = Fn(U, 'print_stderr_with_capture', pre_rewrites=RW, add_params='Tracked(k): Tracked<&mut Kernel>', ghost_args=dict(GA, print_stderr='Tracked(k)'),
     requires=[('C05.pre.bfd.len7', '!old(k).fds.contains_key(-1) && cmd.redirects_to@.len() < 0x7fff_ffff')],
-    ensures=[('C04+C11.bfd.redirected_error_output_of_a_builtin_is_not_captured',
-              'if capture && !redirected(*cmd, "2"@) { final(cr).stderr@ == info@ && final(k).fds == old(k).fds } else { final(cr).stderr@ == old(cr).stderr@ }')])
-UNIT = Unit('U-BFD', TEMPLATE, fns=[get_std_fds, stdout_fd, stderr_fd, print_stdout, print_stderr, cap_err, cap_out],
-            types=[TypeItem('src/types.rs', 'struct', 'Command'), TypeItem('src/types.rs', 'struct', 'CommandLine'), TypeItem('src/types.rs', 'struct', 'CommandResult')],
+    ensures=[('C04+C11.bfd.error_output_of_a_captured_builtin_goes_where_its_redirections_send_it',
+              'if !capture { final(cr).stdout@ == old(cr).stdout@ && final(cr).stderr@ == old(cr).stderr@ } else { match sink_of(*cmd, "2"@) { '
+              'Sink::Out => final(cr).stdout@ == info@ && final(cr).stderr@ == old(cr).stderr@ && final(k).fds == old(k).fds, '
+              'Sink::Err => final(cr).stderr@ == info@ && final(cr).stdout@ == old(cr).stdout@ && final(k).fds == old(k).fds, '
+              'Sink::Elsewhere => final(cr).stdout@ == old(cr).stdout@ && final(cr).stderr@ == old(cr).stderr@ } }')])
+UNIT = Unit('U-BFD', TEMPLATE, fns=[get_std_fds, stdout_fd, stderr_fd, print_stdout, print_stderr, captured_sink, cap_err, cap_out],
+            types=[TypeItem('src/types.rs', 'struct', 'Command'), TypeItem('src/types.rs', 'struct', 'CommandLine'), TypeItem('src/types.rs', 'struct', 'CommandResult'),
+                   TypeItem('src/builtins/utils.rs', 'enum', 'Sink', rewrites=[Rw('enum Sink {', 'pub enum Sink {', rule='R13', why='visibility: the enum is named in the contracts of public functions')], attrs=['#[derive(Clone, Copy)]'])],
             props=('C08', 'C04', 'C05'))
 TRUSTED = common.TRUSTED_STR + [
     'POSIX dup/close/open semantics (ghost kernel, same contracts as U-FD); File owns its descriptor and Drop closes it (R9)',
